@@ -342,6 +342,52 @@ func prepareBatch(ctx *Ctx, res *Result, in *Input, variants []wl.Variant, epi i
 			tf := time.Now()
 			sc.Feeds = makeFeeds(sc.G, r.Sub("spec", si), sz)
 			res.Count("ms_make_feeds", int(time.Since(tf).Milliseconds()))
+			// unknown codes chosen from what THIS generation numbered: the private numbers yaccgo gave the nonterminals (they
+			// sit right above the token codes) are no token codes, a lexer that passes characters through may return them
+			if sc.Auto != nil {
+				tok := map[int]bool{}
+				for y := range sc.Auto.SymName {
+					if !sc.Auto.IsNT[y] {
+						tok[sc.Auto.Value[y]] = true
+					}
+				}
+				var ntCodes []int
+				for y := range sc.Auto.SymName {
+					if sc.Auto.IsNT[y] && y != 0 && !tok[sc.Auto.Value[y]] && sc.Auto.Value[y] > 0 {
+						ntCodes = append(ntCodes, sc.Auto.Value[y])
+					}
+				}
+				rr := r.Sub("ntcodes", si)
+				var sents []int
+				for fi := range sc.Feeds {
+					if sc.Feeds[fi].Sentence && len(sc.Feeds[fi].Toks) <= 12 && sc.Feeds[fi].Kind == "sentence" {
+						sents = append(sents, fi)
+					}
+				}
+				for k := 0; k < 8 && len(ntCodes) > 0 && len(sents) > 0; k++ {
+					base := sc.Feeds[sents[rr.Intn(len(sents))]].Toks
+					code := ntCodes[rr.Intn(len(ntCodes))]
+					m := append([]ref.Tok(nil), base...)
+					p := rr.Intn(len(m) + 1)
+					if len(m) > 0 && rr.Chance(1, 2) {
+						p = rr.Intn(len(m))
+						m[p] = ref.Tok{Term: -2, V: code} // in place of a token
+					} else {
+						m = append(m[:p], append([]ref.Tok{{Term: -2, V: code}}, m[p:]...)...)
+					}
+					rt := make([]int, len(m))
+					for i, t := range m {
+						if t.Term >= 0 {
+							rt[i] = sc.G.T(t.Term)
+						} else {
+							rt[i] = -1
+						}
+					}
+					f := feedInfo{Kind: "mutant-nonterminal-number", Toks: m, PanicAt: -1}
+					f.Sentence, f.BadPos = sc.G.Recognise(rt)
+					sc.Feeds = append(sc.Feeds, f)
+				}
+			}
 			// scale: one very long sentence and a damaged copy, classified by a reference LR run over the tables of this
 			// generation (Earley is quadratic); only for conflict-free grammars, where table and language coincide
 			if sc.Auto != nil && sc.conflictFree() && (si == 0 || ctx.Thorough()) && !sz.NoVeryLong {
